@@ -1,6 +1,7 @@
 package fleet
 
 import (
+	"encoding/binary"
 	"fmt"
 	"testing"
 
@@ -17,14 +18,15 @@ import (
 // ---------------------------------------------------------------------------
 
 type FOp struct {
-	Kind string      `json:"kind"` // put | del | upload | merge | tick
-	Inst int         `json:"inst"`
-	DBI  int         `json:"dbi,omitempty"`
-	Key  int         `json:"key,omitempty"`
-	Val  model.Bytes `json:"val,omitempty"`
-	TS   uint64      `json:"ts,omitempty"`
-	Blob int         `json:"blob,omitempty"` // index into the blobs stored so far (mod count)
-	From int         `json:"from,omitempty"` // merge: if > 0, the newest blob of instance From-1 instead
+	Kind   string      `json:"kind"` // put | del | upload | merge | tick
+	Inst   int         `json:"inst"`
+	DBI    int         `json:"dbi,omitempty"`
+	Key    int         `json:"key,omitempty"`
+	Val    model.Bytes `json:"val,omitempty"`
+	TS     uint64      `json:"ts,omitempty"`
+	IntKey bool        `json:"int_key,omitempty"` // put/del: in the integer-key DBI instead
+	Blob   int         `json:"blob,omitempty"`    // index into the blobs stored so far (mod count)
+	From   int         `json:"from,omitempty"`    // merge: if > 0, the newest blob of instance From-1 instead
 }
 
 type HistCase struct {
@@ -68,6 +70,12 @@ func runHistory(c HistCase, o *vcore.Obs) (*Fleet, *histStats, error) {
 		case "put", "del":
 			dbi := fleetDBIs[op.DBI%len(fleetDBIs)]
 			key := fleetKeys[op.Key%len(fleetKeys)]
+			if op.IntKey {
+				// an MDB_INTEGERKEY DBI: 4-byte native-endian keys incl. 0 and values beyond one and two bytes
+				dbi = IntKeyDBI
+				key = make([]byte, 4)
+				binary.LittleEndian.PutUint32(key, []uint32{0, 1, 255, 256, 70000, 1 << 31}[op.Key%6])
+			}
 			ch := Change{DBI: dbi, Key: key, Del: op.Kind == "del", Val: op.Val, TS: op.TS}
 			if err := f.AppCommit(i, []Change{ch}); err != nil {
 				return f, st, fmt.Errorf("%s: harness: %v", step, err)
@@ -225,6 +233,11 @@ func classifyHist(c HistCase, st *histStats, o *vcore.Obs) bool {
 	o.ClassIf(st.nonNewest, "merge-of-non-newest-blob")
 	o.ClassIf(c.Native, "native")
 	o.ClassIf(!c.Native, "shadow")
+	usesInt := false
+	for _, op := range c.Ops {
+		usesInt = usesInt || op.IntKey
+	}
+	o.ClassIf(usesInt, "integer-key-dbi")
 	o.Class(fmt.Sprintf("instances-%d", c.N))
 	for i := 0; i < c.ExcludedEmpty; i++ {
 		o.Excluded("shadow-empty-value")
@@ -265,6 +278,7 @@ func genHist(t *rapid.T, delHeavy bool, maxOps int) HistCase {
 	nops := rapid.IntRange(lo, maxOps).Draw(t, "nops")
 	nkeys := rapid.SampledFrom([]int{1, 1, 2, 2, 3, 4}).Draw(t, "nkeys")
 	ndbi := rapid.SampledFrom([]int{1, 1, 1, 2}).Draw(t, "ndbi")
+	intKeys := rapid.IntRange(0, 3).Draw(t, "int_keys") == 0 // a quarter of the histories also use an integer-key DBI
 	kinds := []string{"put", "put", "put", "del", "upload", "upload", "upload", "merge", "merge", "merge", "merge", "merge", "tick"}
 	if delHeavy {
 		kinds = []string{"put", "put", "del", "del", "del", "upload", "upload", "upload", "merge", "merge", "merge", "merge", "merge", "tick"}
@@ -275,6 +289,7 @@ func genHist(t *rapid.T, delHeavy bool, maxOps int) HistCase {
 		case "put", "del":
 			op.DBI = rapid.IntRange(0, ndbi-1).Draw(t, "dbi")
 			op.Key = rapid.IntRange(0, nkeys-1).Draw(t, "key")
+			op.IntKey = intKeys && rapid.IntRange(0, 2).Draw(t, "intkey") == 0
 			if rapid.IntRange(0, 19).Draw(t, "rarekey") == 0 {
 				op.Key = rapid.IntRange(0, len(fleetKeys)-1).Draw(t, "anykey")
 			}
